@@ -454,7 +454,6 @@ smtp_rcpt(void)
 		
 		i++;
 	}
-	userconf_free(&ds);
 
 	/* has been mapped to FILTER_DENIED_TEMPORARY before */
 	assert(fr != FILTER_ERROR);
@@ -468,6 +467,7 @@ smtp_rcpt(void)
 		goodrcpt++;
 		r->ok = 1;
 		okmsg[1] = r->to.s;
+		userconf_free(&ds);
 
 		return -net_writen(okmsg);
 	}
@@ -510,6 +510,7 @@ smtp_rcpt(void)
 		i = 0;
 		break;
 	}
+	userconf_free(&ds);
 
 	if (filter_denied(fr)) {
 		if (errmsg != NULL) {
